@@ -144,8 +144,10 @@ void harness(void) { g_calls = 0; lam(0); VF_CANARY("end"); }
     # WaitIterator: fast paths and event sizing
     b = find_body(repo, F, r'bool\s+WaitIterator\s*\(', 'detail::WaitIterator')
     t = re.sub(r'static_assert\((?:[^()]|\((?:[^()]|\([^()]*\))*\))*\)\s*;', '', b.text)
-    t = re.sub(r'static\s+constexpr\s+bool\s+kShared\s*=[^;]*;', '', t)
-    t = re.sub(r'\busing\s+\w+\s*=\s*(?:[^;<]|<(?:[^<>]|<(?:[^<>]|<[^<>]*>)*>)*>)+;', '', t)
+    from vf.cxx2c import drop_pinned
+    t = drop_pinned('WaitIterator', t, ['static constexpr bool kShared = std::is_same_v<decltype(it->GetHandle()), SharedHandle>;',
+                                        'using CoreEvent = MultiEvent<Event, AtomicCounter, CallCallback>;',
+                                        'using FinalEvent = std::conditional_t<kShared, DynamicSharedEvent<CoreEvent>, CoreEvent>;'])
     m = re.search(r'auto\s+range\s*=\s*\[&\]\s*\(auto&&\s*func\)\s*noexcept\s*\{', t)
     if not m:
         raise ExtractionBreak('WaitIterator: range lambda not found')
